@@ -14,12 +14,16 @@ def main():
     ap.add_argument("family")
     ap.add_argument("--gen", type=int, default=150)
     ap.add_argument("--seed", type=int, default=0)
+    ap.add_argument("--twist", type=int, default=0, help="only N neighbourhood mutants of corpus + repo tests")
     ap.add_argument("--show", type=int, default=5)
     ap.add_argument("--keep", action="store_true")
     a = ap.parse_args()
     fam = FAMILIES[a.family]
     rng = random.Random(a.seed)
-    inp = inputs.curated() + inputs.harvest() + inputs.generated(a.seed, a.gen)
+    if a.twist:
+        inp = inputs.neighbourhood(inputs.curated() + inputs.harvest(), a.seed, a.twist)
+    else:
+        inp = inputs.curated() + inputs.harvest() + inputs.generated(a.seed, a.gen)
     cases = list(fam.cases(inp, rng))
     res = corr.run_family(fam, cases, keep=a.keep)
     print(f"{fam.name}: cases={res.cases} nontrivial={res.distinct_nontrivial} mismatches={len(res.mismatches)} "
